@@ -126,6 +126,30 @@ theorem close_rate (accepted completed : Nat) (h : 0 < completed) :
     closeAcceptanceRate (fun n => (n : ℚ)) accepted completed = (accepted : ℚ) / completed := by
   simp [closeAcceptanceRate, Nat.pos_iff_ne_zero.mp h]
 
+/-! ### the file describes the run, not the object's past -/
+
+/-- a run on an object with any past writes the file a fresh object writes when started from the
+    same generator state (structural in the model: `_init_sampler` reads nothing but the generator;
+    the force of this statement on hmclab comes from the C07.reuse correspondence, which runs both) -/
+theorem reuse_eq_fresh {A R L F : Type} (run : A → R → F × R × L) (o : SamplerObj R L) (l' : L) (a : A) :
+    (sampleCall run o a).1 = (sampleCall run { rng := o.rng, left := l' } a).1 := rfl
+
+/-- … after any history of earlier calls: the last file of a session is the file of a fresh object
+    started from the generator state the earlier calls ended in -/
+theorem session_last_file {A R L F : Type} (run : A → R → F × R × L) (o : SamplerObj R L) (hist : List A) (a : A) (l' : L) :
+    (session run o (hist ++ [a])).1.getLast? =
+      some (sampleCall run { rng := (session run o hist).2.rng, left := l' } a).1 := by
+  induction hist generalizing o with
+  | nil => simp [session, sampleCall]
+  | cons h rest ih =>
+    have := ih (sampleCall run o h).2
+    simp only [List.cons_append, session]
+    rw [List.getLast?_cons_of_ne_nil ?_]
+    · exact this
+    · intro hnil
+      rw [hnil] at this
+      simp at this
+
 /-! ### non-vacuity -/
 example : storedIdx 3 12 = [0, 3, 6, 9] := by decide
 example : (3 : Nat) ∣ 12 ∧ 0 < 3 := by decide
